@@ -18,6 +18,8 @@ for id in "$@"; do
   if [ $rc -ge 2 ]; then echo "$out" | tail -5; fi
 done
 git -C /repo checkout -- .
+# rebuild the harness against the restored tree (otherwise target/release/yverif stays linked against the seeded code)
+( cd /verif/harness && cargo build --release --offline >/dev/null 2>&1 )
 # the evidence files now describe runs against the seeded tree: restore the committed ones
 git -C /verif checkout -- evidence 2>/dev/null
 echo "CAUGHT BY:${caught:- none}"
